@@ -4,7 +4,7 @@ set -u
 P="$1"; shift
 cd /repo || exit 2
 if [ -n "$(git status --porcelain)" ]; then echo "repo not clean"; exit 2; fi
-if ! git apply --3way "$P" 2>/tmp/trymut.err; then
+if ! git apply "$P" 2>/tmp/trymut.err; then
   if ! git apply "$P" 2>>/tmp/trymut.err; then echo "PATCH DOES NOT APPLY"; cat /tmp/trymut.err; git checkout -- . ; exit 3; fi
 fi
 git reset -q 2>/dev/null
